@@ -203,8 +203,9 @@ func verifC06Panel() []*verifC06Query {
 			idx, sns, err := s.ConnectServiceNodes(ws, sp.svc, em(), sp.peer)
 			return obs(idx, verifC06Bag(sns), err)
 		})
+		q.Svc = sp.svc
 		if sp.peer == "" {
-			q.Gw, q.Svc = "terminating", sp.svc
+			q.Gw = "terminating"
 		}
 	}
 	type svcTags struct {
